@@ -506,6 +506,15 @@ def seq_after_prelude_obj(s, prelude):
     return s, content_of(s)
 
 
+def seq_aliased(rel, reps=2):
+    """a Sequence whose message list holds every Message object of `rel` `reps` times: what `s.concatenate([p] * reps)` (or
+    `s.concatenate([s])`) builds, because `RelativeSequence.concatenate` takes over the argument's message OBJECTS (known finding D24)"""
+    p = seq_of_rel(rel)
+    s = Sequence()
+    s.concatenate([p] * reps)
+    return s
+
+
 def content_of(s):
     """the sequence's content read through a copy (so that reading does not refresh any view of `s` itself)"""
     return [from_real(m) for m in s.copy().rel._messages]
